@@ -342,23 +342,15 @@ impl<const N: u32> PxE2<{ N }> {
         Self::from_bits(ui_a)
     }
 
-    pub const fn from_i64(mut i_a: i64) -> Self {
+    pub const fn from_i64(i_a: i64) -> Self {
         let sign = i_a.is_negative();
-        if sign {
-            i_a = -i_a;
-        }
+        // magnitude as u64: i64::MIN has no positive counterpart in i64
+        let a = i_a.unsigned_abs();
 
-        let ui_a = if (N == 2) && (i_a > 0) {
+        let ui_a = if (N == 2) && (a > 0) {
             0x_4000_0000
-        } else if i_a > 0x_7FFD_FFFF_FFFF_FFFF {
-            //9222809086901354495
-            let mut ui_a = 0x_7FFF_B000; // P32: 9223372036854775808
-            if N < 18 {
-                ui_a &= Self::mask();
-            }
-            ui_a
         } else {
-            convert_u32_to_px2bits::<{ N }>(i_a as u32)
+            convert_u64_to_px2bits::<{ N }>(a)
         };
         Self::from_bits(u32_with_sign(ui_a, sign))
     }
